@@ -20,6 +20,10 @@ const RDB_VERSION: u16 = 9;
 /// RDB magic string
 const RDB_MAGIC: &[u8] = b"REDIS";
 
+/// First element of the list a stream is written as (the format has no stream type).
+/// A list that itself starts with this element is written with the element doubled.
+const STREAM_MARKER: &[u8] = b"__FERROUS_STREAM_MARKER__";
+
 /// RDB opcodes
 #[repr(u8)]
 #[derive(Debug, Clone, Copy)]
@@ -272,7 +276,13 @@ impl RdbEngine {
                             buffer.extend_from_slice(bytes.as_ref());
                         }
                         Value::List(list) => {
-                            self.write_length(&mut buffer, list.len())?;
+                            // A list that starts with the stream marker gets the marker doubled
+                            let escaped = list.front().map_or(false, |first| first.as_slice() == STREAM_MARKER);
+                            self.write_length(&mut buffer, list.len() + escaped as usize)?;
+                            if escaped {
+                                self.write_length(&mut buffer, STREAM_MARKER.len())?;
+                                buffer.extend_from_slice(STREAM_MARKER);
+                            }
                             for item in list {
                                 self.write_length(&mut buffer, item.len())?;
                                 buffer.extend_from_slice(&item);
@@ -322,9 +332,8 @@ impl RdbEngine {
                             self.write_length(&mut buffer, total_items)?;
                             
                             // Write stream marker
-                            let marker = b"__FERROUS_STREAM_MARKER__";
-                            self.write_length(&mut buffer, marker.len())?;
-                            buffer.extend_from_slice(marker);
+                            self.write_length(&mut buffer, STREAM_MARKER.len())?;
+                            buffer.extend_from_slice(STREAM_MARKER);
                             
                             // Write each entry
                             for entry in entries {
@@ -603,7 +612,7 @@ impl<W: Write> RdbWriter<W> {
                 self.write_length(total_items)?;
                 
                 // Write stream marker to identify this as a stream during load
-                self.write_string(b"__FERROUS_STREAM_MARKER__")?;
+                self.write_string(STREAM_MARKER)?;
                 
                 // Write each stream entry as: ID string, field count, field-value pairs
                 for entry in entries {
@@ -626,8 +635,12 @@ impl<W: Write> RdbWriter<W> {
                 self.write_byte(RdbOpcode::List as u8)?;
                 self.write_string(key)?;
                 
-                // Write list length
-                self.write_length(list.len())?;
+                // Write list length (a list that starts with the stream marker gets the marker doubled)
+                let escaped = list.front().map_or(false, |first| first.as_slice() == STREAM_MARKER);
+                self.write_length(list.len() + escaped as usize)?;
+                if escaped {
+                    self.write_string(STREAM_MARKER)?;
+                }
                 
                 // Write each list element
                 for item in list {
@@ -902,12 +915,26 @@ impl<R: Read> RdbReader<R> {
             }
             op if op == RdbOpcode::List as u8 => {
                 let key = self.read_string()?;
-                let count = self.read_length()?;
+                let mut count = self.read_length()?;
                 
                 // Check if this is a stream marker
                 if count >= 1 {
                     let first_element = self.read_string()?;
-                    if first_element == b"__FERROUS_STREAM_MARKER__" {
+                    let mut is_stream = first_element == STREAM_MARKER;
+                    
+                    // Marker twice: a list that starts with the marker, the first one is dropped
+                    let mut second_element = None;
+                    if is_stream && count >= 2 {
+                        let second = self.read_string()?;
+                        if second == STREAM_MARKER {
+                            is_stream = false;
+                            count -= 1;
+                        } else {
+                            second_element = Some(second);
+                        }
+                    }
+                    
+                    if is_stream {
                         // This is a stream - reconstruct it
                         // The key exists even when no entry follows (a stream emptied by XDEL/XTRIM)
                         storage.set_value(db, key.clone(), Value::Stream(crate::storage::stream::Stream::new()), None)?;
@@ -919,8 +946,11 @@ impl<R: Read> RdbReader<R> {
                                 break; // Not enough data for a complete entry (ID + field count)
                             }
                             
-                            // Read entry ID
-                            let id_str = self.read_string()?;
+                            // Read entry ID (the first one was read above)
+                            let id_str = match second_element.take() {
+                                Some(id_str) => id_str,
+                                None => self.read_string()?,
+                            };
                             entry_idx += 1;
                             
                             // Read field count
